@@ -766,3 +766,8 @@ mod tests {
         assert!(e.to_string().contains("armor header Error"));
     }
 }
+
+// verification hook (add-only, inert unless built by `cargo kani`, which sets --cfg kani)
+#[cfg(kani)]
+#[path = "/verif/kani/cleartext_harness.rs"]
+mod verif_kani;
